@@ -80,6 +80,9 @@ class Check(PropertyCheck):
                                          # a dispatching rule is asked for its choice (and nothing is dispatched on it)
                                          f"rule {tb} {rng.randint(0, 9)}", f"rule {tb} {rng.randint(0, 9)}",
                                          "rule " + rng.choice(["spt", "fcfs", "mwkr", "mor", "sb:spt", "sb:mor"]) + " 0"]))
+            if rng.random() < 0.3:
+                # the user looked at other (memoised) queries first: what they returned must not be used up
+                lines += ["q " + q for q in rng.sample(["scheduled", "unscheduled", "uncompleted", "ongoing", "available"], rng.randint(1, 2))]
             lines += ["q current_time", "q completed"]
         lines += ["q is_complete", "q makespan"]
         if rng.random() < 0.35:
